@@ -16,10 +16,15 @@ CONSTANTS
   FixRevertVerify = TRUE
   FixUnderflow = TRUE
   Fine = FALSE
-  EmptyDiff = {2, 4}
+  EmptyDiff = {}
   RootCheckedOnEmptyDiff = TRUE
   VerdictPerAnswer = TRUE
+  ClassA = {2, 4}
+  ClassB = {1, 4}
+  SierraSet = {2}
+  RememberKnown = FALSE
+  Windows = FALSE
 SPECIFICATION FairSpec
-INVARIANTS TypeOK LocalIsSourceBlocks ReorgExact StoredOnlyVerified
-PROPERTIES EventuallyConverges StoreSafe HeadMovesOnlyByStoreOrRevert RevertsJustified RevertsHaveEvidence
+INVARIANTS TypeOK LocalIsSourceBlocks ReorgExact StoredOnlyVerified ClassesExact StoredClassesComplete KnownIsCurrent
+PROPERTIES EventuallyConverges StoreSafe HeadMovesOnlyByStoreOrRevert RevertsJustified RevertsHaveEvidence NewClassesSufficient
 CHECK_DEADLOCK TRUE
